@@ -19,7 +19,7 @@ RULE = ("case = one execution of plan 'custom_mon' / 'mon2' (a signal monitored 
 ASSUMPTIONS = ["updates whose log position is within 2 entries of a state change are not judged (transitional windows)",
                "the fake signal calls its subscribers synchronously from put(), like ophyd"]
 REQUIRED_COUNTERS = {"executions": 300, "updates_judged": 1500, "updates_while_paused": 100, "updates_while_suspended": 100,
-                     "updates_reported": 500, "subscription_checks": 300}
+                     "updates_reported": 500, "subscription_checks": 300, "run_stops_seen": 300}
 MANIFEST = {
     "technique": "per-update oracle (expected 0/1 events from the engine state at the update's log position) + leftover "
                  "subscription check on the fake signal, over a pause/suspend coordinate sweep in virtual time",
@@ -37,8 +37,16 @@ worker_init = sweepcheck.worker_init
 
 
 def gen_cases(tier, seed):
-    return sweepcheck.gen_cases(tier, seed, PLANS_Q, PLANS_T, ["pause", "suspend", "abort", "stop"], nslices=(4, 4),
-                                pairs=[("pause", "suspend"), ("suspend", "pause"), ("suspend", "suspend")])
+    cases = sweepcheck.gen_cases(tier, seed, PLANS_Q, PLANS_T, ["pause", "suspend", "abort", "stop"], nslices=(4, 4),
+                                 pairs=[("pause", "suspend"), ("suspend", "pause"), ("suspend", "suspend")])
+    # a document consumer that updates the monitored signal when it sees the RunStop (run closed with monitors still on)
+    cases.append({"plan": "mon_closeleft", "docput": True, "seed": seed})
+    for k in ("pause", "abort", "stop"):
+        cases.append({"plan": "mon_closeleft", "kind": k, "slice": [0, 1], "seed": seed, "spec_extra": {"doc_put": ["stop", "sig"]}})
+    # an interruption BEFORE the first monitor message and a second one after it
+    for k1, k2 in (("pause", "pause"), ("suspend", "pause"), ("pause", "suspend")):
+        cases.append({"plan": "mon2", "before_after_monitor": [k1, k2], "seed": seed})
+    return cases
 
 
 def judge(ex, ref, case):
@@ -46,7 +54,7 @@ def judge(ex, ref, case):
     key0 = f"{ex.spec['plan']}|" + ("+".join(f"{x['kind']}@{x['command']}" for x in li) or "none")
     if ex.timeout or ex.stuck or ex.final_state != "idle":
         return [R("inconclusive", key0, detail="engine did not come back idle (judged by C07)")]
-    if not li:
+    if not li and not ex.spec.get("doc_put"):
         return [R("skip", key0, False)]
     log = ex.log
     end = next((i for i, e in enumerate(log) if (e[0] == "call" and e[1] == "probe") or e[0] == "harness"), len(log))
@@ -128,6 +136,16 @@ def judge(ex, ref, case):
                 problems.append((f"update-reported-while-{cls}", f"update {v} at log {i} was reported although the engine was {cls}"))
             elif not should and n == 1 and not monitored:
                 problems.append(("update-reported-while-not-monitored", f"update {v} at log {i}"))
+    # document order: no event of a monitor stream after the RunStop of its run (whatever the timing of the update)
+    desc_run = {e[2]["uid"]: e[2]["run_start"] for e in log[:end] if e[0] == "doc" and e[1] == "descriptor"}
+    stopped = set()
+    for e in log[:end]:
+        if e[0] == "doc" and e[1] == "stop":
+            stopped.add(e[2]["run_start"])
+            counters["run_stops_seen"] = counters.get("run_stops_seen", 0) + 1
+        elif e[0] == "doc" and e[1] == "event" and e[2]["descriptor"] in mon_desc and desc_run.get(e[2]["descriptor"]) in stopped:
+            problems.append(("monitor-event-after-RunStop", f"event seq {e[2]['seq_num']} of the monitor stream after its run's RunStop"))
+            break
     counters["subscription_checks"] = 1
     sig = ex.devices["sig"]
     if sig.subs:
@@ -154,4 +172,25 @@ def judge(ex, ref, case):
 
 
 def run_case(case):
+    from vf.sweep import execute, reference_coords
+
+    if case.get("docput"):
+        spec = {"plan": case["plan"], "doc_put": ["stop", "sig"], "decisions": []}
+        ref, _ = reference_coords({"plan": case["plan"]})
+        return judge(execute(spec), ref, case)
+    if case.get("before_after_monitor"):
+        k1, k2 = case["before_after_monitor"]
+        ref, coords = reference_coords({"plan": case["plan"]})
+        nmon = next(n for n, m in enumerate(ref.h.msgs(), 1) if m.command == "monitor")
+        before = [c for c in coords if 1 <= c[0] < nmon][::3]
+        after = [c for c in coords if c[0] > nmon + 1][2::7]
+        from vf.checks.C11 import params_for
+
+        out = []
+        for c1 in before:
+            for c2 in after[:6]:
+                inj = [[c1[0], c1[1], k1, params_for(k1) if k1 != "pause" else {}],
+                       [c2[0], c2[1], k2, params_for(k2) if k2 != "pause" else {}]]
+                out += judge(execute({"plan": case["plan"], "inj": inj, "decisions": ["resume"] * 4}), ref, case)
+        return out
     return sweepcheck.run_case(case, judge, decisions=(), first_decisions=("resume", "resume", "resume"))
